@@ -23,9 +23,9 @@ type slowSource struct {
 	calls int
 }
 
-func (s *slowSource) Name() string  { return s.name }
-func (s *slowSource) Init() error   { return nil }
-func (s *slowSource) Close() error  { return nil }
+func (s *slowSource) Name() string { return s.name }
+func (s *slowSource) Init() error  { return nil }
+func (s *slowSource) Close() error { return nil }
 func (s *slowSource) Lookup(key any) (map[string]any, bool) {
 	s.calls++
 	s.e.Fault("table_lookup_slow")
